@@ -18,6 +18,7 @@ import (
 	"github.com/fabiolb/fabio/config"
 	"github.com/fabiolb/fabio/route"
 	"github.com/fabiolb/fabio/zzverif/ev"
+	"github.com/fabiolb/fabio/zzverif/vhook"
 	"github.com/fabiolb/fabio/zzverif/vsched"
 )
 
@@ -35,7 +36,7 @@ func (c c14Catalog) RoundTrip(r *http.Request) (*http.Response, error) {
 
 func TestVerifC14Sched(t *testing.T) {
 	L := ev.Begin("C14", "c14-sched", "model_checking",
-		"controlled scheduler over the real ServiceMonitor.makeConfig -> serviceConfig -> routecmd.build (go statements, channel operations and every statement of the three functions are scheduling points; the Consul catalog is an in-memory http.RoundTripper): 2-3 services, one of them with a registration fabio cannot express, built by 2-3 concurrent service monitors; every interleaving up to the preemption bound. oracle: the generated text equals the one a single monitor produces, is accepted by route.NewTable, holds the routes of the well-formed services and none of the inexpressible one")
+		"controlled scheduler over the real ServiceMonitor.makeConfig -> serviceConfig -> routecmd.build (go statements, channel operations and every statement of the three functions are scheduling points; the Consul catalog is an in-memory http.RoundTripper): 2-3 services, one of them with a registration fabio cannot express, built by 2-3 concurrent service monitors; every interleaving up to the preemption bound. oracle: the generated text equals the one a single monitor produces, is accepted by route.NewTable, holds the routes of the well-formed services and none of the inexpressible one, and is produced without any pause (time.Sleep on this path is virtual and must add up to zero)")
 	cat := c14Catalog{
 		"alpha": {{Node: "n1", Address: "10.0.0.1", ServiceID: "alpha-1", ServiceName: "alpha", ServicePort: 8001, ServiceTags: []string{"urlprefix-alpha.example/ strip=/x", "urlprefix-/alpha"}}},
 		"bad":   {{Node: "n2", Address: "10.0.0.2", ServiceID: "bad-1", ServiceName: "bad", ServicePort: 8002, ServiceTags: []string{"urlprefix-/bad weight=abc", "urlprefix-/bad2 weight=NaN"}}},
@@ -56,6 +57,10 @@ func TestVerifC14Sched(t *testing.T) {
 	mk := func(monitors int) *ServiceMonitor {
 		return NewServiceMonitor(client, &config.Consul{TagPrefix: "urlprefix-", ServiceMonitors: monitors}, "dc1")
 	}
+	// any pause on this path is a delay of the route update: sleeps are virtual and added up
+	var slept time.Duration
+	vhook.SleepHook = func(d time.Duration) { slept += d }
+	defer func() { vhook.SleepHook = nil }()
 	si, sn := ev.Shard()
 	deadline := ev.Deadline(100, 1200)
 	scs := []struct {
@@ -66,7 +71,11 @@ func TestVerifC14Sched(t *testing.T) {
 	}{{"bad+good-2-monitors", []string{"bad", "alpha"}, 2, 2, 4}, {"good+bad+good-3-monitors", []string{"alpha", "bad", "gamma"}, 3, 1, 2}, {"good+bad+good-2-monitors", []string{"alpha", "bad", "gamma"}, 2, 1, 2}}
 	for _, sc := range scs {
 		sc := sc
+		slept = 0
 		reference := mk(1).makeConfig(checksFor(sc.services...))
+		if slept > 0 && !vsched.Free() {
+			L.Violation("route-update-delayed-by-a-registration", map[string]interface{}{"services": sc.services, "monitors": 1, "paused_for": slept.String()})
+		}
 		if !vsched.Free() {
 			// the reference itself must be sane, otherwise the differential oracle means nothing
 			if _, err := route.NewTable(bytes.NewBufferString(reference)); err != nil || strings.Contains(reference, "bad") || !strings.Contains(reference, "alpha") {
@@ -76,8 +85,13 @@ func TestVerifC14Sched(t *testing.T) {
 		body := func(x *vsched.X) {
 			w := mk(sc.monitors)
 			var got string
+			slept = 0
 			x.Go("makeConfig", func() { got = w.makeConfig(checksFor(sc.services...)) })
 			x.Run()
+			if slept > 0 {
+				x.Fail("route-update-delayed-by-a-registration", map[string]interface{}{"services": sc.services, "monitors": sc.monitors, "paused_for": slept.String()})
+				return
+			}
 			if got == reference {
 				return
 			}
